@@ -48,7 +48,14 @@ Root0 == MkRoot(Dims(root))
 Do(op, a, mutating) ==
     LET r == Apply(root, stack, op, a)
         cs == Append(calls, [op |-> op, a |-> a, x |-> [res |-> r.res, root |-> Flat(r.root)]])
-    IN /\ root' = r.root
+    IN \* the properties of the semantics are asserted on EVERY transition (the VIEW hides the cell contents, so an
+       \* invariant would only see the first representative of each (shape, stack, nmut) class)
+       /\ Assert(IsGrid(r.root) /\ Dims(r.root) = Dims(root), <<"RootShape", op, a>>)
+       /\ Assert(FrameOK(root, stack, r.root), <<"Frame (C04)", stack, op, a>>)
+       /\ Assert(r.res = Panic => r.root = root, <<"Reject", op, a>>)
+       /\ Assert(op \in {"swap", "swap_rows", "swap_cols", "row_pair_swap", "translate", "flip_rows", "flip_cols"}
+                   => IsRearrangement(root, r.root), <<"Rearrange", op, a>>)
+       /\ root' = r.root
        /\ calls' = cs
        /\ nmut' = IF mutating THEN nmut + 1 ELSE nmut
        /\ last' = [op |-> op, pre |-> root, res |-> r.res]
@@ -142,7 +149,8 @@ DoSort(v, line, rt) ==
         cs == Append(calls, [op |-> "sort", a |-> a,
                              x |-> [res |-> IF results = {} THEN Panic ELSE Unit,
                                     alts |-> SetToSeq({Flat(g) : g \in results})]])
-    IN /\ root' = chosen
+    IN /\ Assert(\A g \in results : FrameOK(rt, stack, g) /\ IsRearrangement(rt, g), <<"Sort frame / rearrangement", stack, a>>)
+       /\ root' = chosen
        /\ calls' = cs
        /\ nmut' = nmut + 1
        /\ last' = [op |-> "sort", pre |-> rt, res |-> IF results = {} THEN Panic ELSE Unit]
